@@ -86,6 +86,13 @@ namespace occa {
     streamTagRing.removeRef(streamTag);
   }
 
+  void modeDevice_t::addBytesAllocated(const udim_t bytes) {
+    const udim_t allocated = (bytesAllocated += bytes);
+    udim_t maxAllocated = maxBytesAllocated;
+    while ((maxAllocated < allocated) &&
+           !maxBytesAllocated.compare_exchange_weak(maxAllocated, allocated)) {}
+  }
+
   void modeDevice_t::finish() const {
     currentStream.getModeStream()->finish();
   }
